@@ -11,9 +11,11 @@ import traceback
 from vf import tlc as tlcmod
 
 ROOT = os.path.dirname(os.path.dirname(os.path.abspath(__file__)))
-SCRATCH = os.path.join(ROOT, '.scratch')
+# VERIF_SIDE=<dir>: development runs against a seeded change keep their scratch and evidence away from the real ones
+SIDE = os.environ.get('VERIF_SIDE')
+SCRATCH = os.path.join(SIDE, 'scratch') if SIDE else os.path.join(ROOT, '.scratch')
 FINDINGS = os.path.join(ROOT, 'known_findings.json')
-EVIDENCE = os.path.join(ROOT, 'evidence')
+EVIDENCE = os.path.join(SIDE, 'evidence') if SIDE else os.path.join(ROOT, 'evidence')
 
 
 class Machinery(Exception):
